@@ -190,8 +190,23 @@ def list_to_dict(a):
     return {x[0]:x[1] for x in a}
 
 
+def _copy_literal(x):
+    """
+    Copy a parsed dictionary literal. A dictionary literal written inside it (as a
+    payload, or inside a list payload) was parsed into the same constructor call and
+    is a dictionary of its own, built afresh with every copy.
+    """
+    if isinstance(x, KGCall) and x.a is copy_lambda:
+        return _copy_literal(x.args)
+    if isinstance(x, dict):
+        return {k: _copy_literal(v) for k, v in x.items()}
+    if isinstance(x, list):
+        return [_copy_literal(v) for v in x]
+    return copy.deepcopy(x)
+
+
 # Lambda for copy operations (used in dict parsing)
-copy_lambda = KGLambda(lambda x: copy.deepcopy(x))
+copy_lambda = KGLambda(lambda x: _copy_literal(x))
 
 
 def read_list(t, delim, i=0, module=None):
